@@ -17,7 +17,7 @@ FEN_CT = '_ZN6engine8PositionC2ENSt7__cxx1112basic_stringIcSt11char_traitsIcESaI
 UCI_WR = '_ZNK6engine8Position3uciB5cxx11Ej'; UCI_RD = '_ZN6engine8Position9parse_uciERKNSt7__cxx1112basic_stringIcSt11char_traitsIcESaIcEEE'
 STR = r'_ZNSt7__cxx1112basic_stringIcSt11char_traitsIcESaIcEE'
 FEN_LIB = {   # library surface of the two functions -> model bodies (parameters are v_0, v_1, ... as in the generated prototypes)
-    'os_cstr': (r'^_ZStlsISt11char_traitsIcEERSt13basic_ostreamIcT_ES5_PKc$', 'for (int i = 0; i < 3; i++) { if (v_1[i] == 0) break; put(v_1[i]); } return v_0;'),
+    'os_cstr': (r'^_ZStlsISt11char_traitsIcEERSt13basic_ostreamIcT_ES5_PKc$', 'for (int i = 0; i < 8; i++) { if (v_1[i] == 0) break; put(v_1[i]); } if (v_1[0] && v_1[1] && v_1[2] && v_1[3] && v_1[4] && v_1[5] && v_1[6] && v_1[7] && v_1[8]) overflow = 1; return v_0;'),
     'os_char': (r'^_ZStlsISt11char_traitsIcEERSt13basic_ostreamIcT_ES5_c$', 'put(v_1); return v_0;'),
     'os_uint': (r'^_ZNSolsEj$', 'put((uint8_t)(0xF0 + nnum)); if (nnum < 4) NUMS[nnum] = (int64_t)v_1; nnum++; return v_0;'),
     'os_int': (r'^_ZNSolsEi$', 'put((uint8_t)(0xF0 + nnum)); if (nnum < 4) NUMS[nnum] = (int64_t)(int32_t)v_1; nnum++; return v_0;'),
@@ -64,7 +64,9 @@ def build_fen(ctx):
     names_all = ['h_uci_roundtrip'] + ['h_fen_fixed_' + k for k in FIXED] + ([] if ctx.tier == 'quick' else ['h_fen_rank1', 'h_fen_rank8', 'h_fen_Kk'])
     names_all = [n for n in names_all if not ctx.only or re.search(ctx.only, n)]
     if not names_all: return [], []
-    m = ctx.module(['position', 'types', 'zobrist_hash', 'bithacks', 'move_bitboards'], tag='fen')
+    ctx.nopic = True      # text-producing code: a lookup table of string literals must stay an array of pointers
+    try: m = ctx.module(['position', 'types', 'zobrist_hash', 'bithacks', 'move_bitboards'], tag='fen')
+    finally: ctx.nopic = False
     allf = [k[1:] if k.startswith('@') else k for k in m.funcs]
     layout.field_header(ctx, m, [layout.POSITION_FIELDS], ['position.h'])     # before the cut below: member offsets are taken from the unmodified layout
     import ll2c
@@ -105,7 +107,7 @@ def build_fen(ctx):
     qs, ws = [], []
     for n, mat in qn:
         us = dict(mc_unwind(len(mat)))
-        us.update({S['str_cstr'] + '.0': 17, S['os_cstr'] + '.0': 4, S['str_eq'] + '.0': 4, S['str_eq'] + '.1': 4, S['map_idx'] + '.0': 13})
+        us.update({S['str_cstr'] + '.0': 17, S['os_cstr'] + '.0': 9, S['str_eq'] + '.0': 4, S['str_eq'] + '.1': 4, S['map_idx'] + '.0': 13})
         for f in allf:
             if '__fill_a1' in f or 'fill_n' in f: us[f + '.0'] = 66     # std::fill_n of the 64-square board, 13 counts, 7+2 bitboards: concrete trip counts
         us.update({'fen_case.0': 49, 'fen_case.1': 65, 'fen_case.2': 7, 'fen_case.3': 14, 'fen_case.4': 14, FEN_CT + '.0': 40, FEN_CT + '.1': 6, FEN_WR + '.0': 9, FEN_WR + '.1': 9,
